@@ -54,10 +54,12 @@ Record config := {
   pol : policy;           (* searcher_data *)
   myopic : bool;          (* register_pending_myopic *)
   sty : stype;            (* type = stopping | promotion *)
-  maximize : bool         (* mode = max: criterion = 1 - metric (map_reward 1_minus_x) *)
+  maximize : bool;        (* mode = max: criterion = map_reward(metric) = reward_const - metric *)
+  reward_const : Q        (* search_options["map_reward"]: "1_minus_x" (default) -> 1, "minus_x" -> 0, "<c>_minus_x" or
+                             map_reward_const_minus_x(c) -> c; ignored when mode = min *)
 }.
 
-Definition crit (cfg : config) (v : Q) : Q := if maximize cfg then (1 - v)%Q else v.
+Definition crit (cfg : config) (v : Q) : Q := if maximize cfg then (reward_const cfg - v)%Q else v.
 
 (* ------------------------------------------------------------------ *)
 (* TuningJobState + ModelStateTransformer + GPMultiFidelitySearcher    *)
